@@ -232,6 +232,8 @@ def configs(tier, seed):
         out.append((CP.P23(), True, True))
         out.append((CP.P24(), True, True))
         out.append((CP.P28(), True, True))
+        out.append((CP.P30(), True, True))
+        out.append((CP.P29(), True, True))
         out.append((CP.P11(), True, False))  # inverse-function compositions, Model mode
         out.append((CP.P18(), True, False))  # Piecewise / Max / Min, Model mode (path per switch)
         return out
